@@ -158,7 +158,7 @@ def tlc(module, cfg=None, workers=4, env=None, timeout=1800, extra=None, heap="4
     parse/semantic/JVM failure (which must never be reported as a violation)."""
     cwd = cwd or SPEC
     meta = rundir("tlc")
-    cmd = ["java", "-XX:+UseParallelGC", "-XX:ParallelGCThreads=2", "-Xms512m", "-Xmx" + heap, "-DTLA-Library=" + SPEC]
+    cmd = ["java", "-XX:+UseParallelGC", "-XX:ParallelGCThreads=2", "-Xss64m", "-Xms512m", "-Xmx" + heap, "-DTLA-Library=" + SPEC]
     if depth_first:
         cmd.append("-Dtlc2.tool.queue.IStateQueue=StateDeque")
     cmd += ["-cp", JAR, "tlc2.TLC", "-workers", str(workers), "-metadir", meta, "-noGenerateSpecTE"]
